@@ -67,7 +67,7 @@ impl Prop for C17 {
         }
     }
     fn rule_text(&self) -> &'static str {
-        "seeded scenarios: a configuration (sample_count_total, interval_ms_total, sample_count, interval_ms) from a grid incl. zero, non-dividing and non-tiling values, given as entity (init_with_config) or as YAML text (init_with_config_file on a scratch file), background tasks disabled through the configuration itself; accept/reject compared with an independent predicate; for an accepted configuration one resource node is created on the initialising thread and one on a thread spawned and joined at once (only one thread is ever runnable), and a 10-25 op write/advance/read history under the virtual clock is applied to both: every read must equal the reference computed with the configured geometry (so a node that silently got another geometry shows). Non-trivial = accepted configuration different from the default with >= 1 read that distinguishes it from the default geometry; distinct = distinct trace hash."
+        "seeded scenarios: a configuration (sample_count_total, interval_ms_total, sample_count, interval_ms) from a grid incl. zero, non-dividing and non-tiling values, given as entity (init_with_config) or as YAML text (init_with_config_file on a scratch file), background tasks disabled through the configuration itself; accept/reject compared with an independent predicate; for an accepted configuration one resource node is created on the initialising thread and one on a thread spawned and joined at once, and one on a worker thread that was started (and had read the default configuration) before initialisation; the threads are serialised through channels so that only one is ever runnable, and a 10-25 op write/advance/read history under the virtual clock is applied to both: every read must equal the reference computed with the configured geometry (so a node that silently got another geometry shows). Non-trivial = accepted configuration different from the default with >= 1 read that distinguishes it from the default geometry; distinct = distinct trace hash."
     }
     fn components(&self) -> Value {
         json!({"real": ["sentinel-core: init_with_config / init_with_config_file, ConfigEntity::check, serde_yaml parsing, config accessors, ResourceNode creation on two threads, sliding windows"],
@@ -148,6 +148,35 @@ fn ev(kind: u8) -> (MetricEvent, K) {
 fn run(sc: &Scn, w: &mut World, tr: &mut Trace, cov: &mut Cov) -> Option<Violation> {
     let want_ok = servable(sc.cfg.2, sc.cfg.3, sc.cfg.0, sc.cfg.1);
     let how = if sc.yaml { "yaml" } else { "entity" };
+    // a worker thread that exists before initialisation and has already read the (default)
+    // configuration: it touches a resource, then waits; after init it will be asked to first-touch
+    // another resource. Strictly serialised through channels: never two runnable threads.
+    let (to_worker, worker_rx) = std::sync::mpsc::channel::<String>();
+    let (worker_tx, from_worker) = std::sync::mpsc::channel();
+    let pre_name = format!("{}_pre", sc.res);
+    let worker = std::thread::spawn(move || {
+        let _ = std::panic::catch_unwind(|| stat::get_or_create_resource_node(&pre_name, &ResourceType::Common));
+        let _ = worker_tx.send(None);
+        if let Ok(name) = worker_rx.recv() {
+            let n = std::panic::catch_unwind(|| stat::get_or_create_resource_node(&name, &ResourceType::Common)).ok();
+            let _ = worker_tx.send(n);
+        }
+    });
+    let _ = from_worker.recv();
+    let finish_worker = |name: Option<String>| {
+        let r = match name {
+            Some(n) => {
+                let _ = to_worker.send(n);
+                from_worker.recv().ok().flatten()
+            }
+            None => {
+                drop(to_worker);
+                None
+            }
+        };
+        let _ = worker.join();
+        r
+    };
     let got = std::panic::catch_unwind(std::panic::AssertUnwindSafe(|| {
         if sc.yaml {
             let text = serde_yaml::to_string(&entity(sc.cfg)).expect("yaml");
@@ -164,12 +193,14 @@ fn run(sc: &Scn, w: &mut World, tr: &mut Trace, cov: &mut Cov) -> Option<Violati
         Ok(g) => g,
         Err(_) => {
             let (loc, msg) = crate::seams::take_last_panic().unwrap_or_default();
+            finish_worker(None);
             return Some(Violation::new(format!("C17/init/{}/panic", how), 0, format!("configuration {:?}: panic at {}: {}", sc.cfg, loc, msg)));
         }
     };
     tr.word(got.is_ok() as u64);
     w.ops += 1;
     if got.is_ok() != want_ok {
+        finish_worker(None);
         return Some(Violation::new(
             format!("C17/init/{}/{}", how, if want_ok { "refused-servable-configuration" } else { "accepted-unservable-configuration" }),
             0,
@@ -178,6 +209,7 @@ fn run(sc: &Scn, w: &mut World, tr: &mut Trace, cov: &mut Cov) -> Option<Violati
     }
     if !want_ok {
         cov.hit("configuration_refused");
+        finish_worker(None);
         return None;
     }
     cov.hit(if sc.yaml { "accepted_via_yaml" } else { "accepted_via_entity" });
@@ -187,8 +219,10 @@ fn run(sc: &Scn, w: &mut World, tr: &mut Trace, cov: &mut Cov) -> Option<Violati
     let a = std::panic::catch_unwind(|| stat::get_or_create_resource_node(&name_a, &ResourceType::Common));
     let nb = name_b.clone();
     let b = std::thread::spawn(move || std::panic::catch_unwind(|| stat::get_or_create_resource_node(&nb, &ResourceType::Common))).join().expect("join");
-    let (a, b) = match (a, b) {
-        (Ok(a), Ok(b)) => (a, b),
+    let name_c = format!("{}_c", sc.res);
+    let c = finish_worker(Some(name_c));
+    let (a, b, c) = match (a, b, c) {
+        (Ok(a), Ok(b), Some(c)) => (a, b, c),
         _ => {
             let (loc, msg) = crate::seams::take_last_panic().unwrap_or_default();
             return Some(Violation::new("C17/node/creation-panics", 0, format!("accepted configuration {:?}: {} {}", sc.cfg, loc, msg)));
@@ -205,6 +239,7 @@ fn run(sc: &Scn, w: &mut World, tr: &mut Trace, cov: &mut Cov) -> Option<Violati
                 let (me, k) = ev(*kind);
                 a.add_count(me, *n);
                 b.add_count(me, *n);
+                c.add_count(me, *n);
                 log.add(w.now_ms(), k, *n);
                 w.ops += 1;
             }
@@ -218,7 +253,7 @@ fn run(sc: &Scn, w: &mut World, tr: &mut Trace, cov: &mut Cov) -> Option<Violati
                     if want != log.sum(t, 1000, 500, k) {
                         distinguishing = true;
                     }
-                    for (node, who) in [(&a, "init-thread-node"), (&b, "other-thread-node")] {
+                    for (node, who) in [(&a, "init-thread-node"), (&b, "other-thread-node"), (&c, "thread-started-before-init-node")] {
                         let got = node.sum(me);
                         tr.word(got);
                         if got != want {
